@@ -74,8 +74,14 @@ def worker(pid, tier, seed, shard, nshards, outpath):
         finally:
             os.close(fd)
 
+    # VERIF_FAST_FAIL=1 (seeded-change tooling only, never a registered command): stop handing out cases once some worker has seen
+    # an unclassified violation - against a seeded change the answer "detected" is usually known after the first few cases
+    fast_fail = os.environ.get("VERIF_FAST_FAIL") == "1"
+    stop_flag = os.path.join(os.path.dirname(outpath), "stop")
     with open(outpath, "w") as out:
         while True:
+            if fast_fail and os.path.exists(stop_flag):
+                break
             i = next_index()
             if i >= len(cases):
                 break
@@ -94,6 +100,8 @@ def worker(pid, tier, seed, shard, nshards, outpath):
             res["wall"] = round(time.time() - t0, 3)
             out.write(json.dumps(engine.jsonable(res)) + "\n")
             out.flush()
+            if fast_fail and any(not v.get("known") for v in (res.get("viol") or [])):
+                open(stop_flag, "w").close()
         out.write(json.dumps({"shard_done": shard}) + "\n")
 
 
